@@ -9,7 +9,7 @@ CHECKS = {
    text="Conservation ledger + isolation monitor evaluated after every message of seeded random multi-bridge histories over the real ophost handlers (all message types, valid and invalid, third-party sends, forged and cross-bridge claims, deposits around 2^63/2^64 by a funded account, and scripts executed on state branches that are thrown away — create-bridge+deposit, ghost proposals+claims): escrow == ledger for every id, exact per-account balance deltas, unchanged supply, byte-identical views and raw-key attribution for all other bridges. Held on the executions listed in the evidence.",
    note=TB, technique="runtime reference-model monitor (conservation ledger, per-bridge view isolation) over random histories"),
  "C02": dict(level="exploration", design="§3 C02",
-   text="Exactly-once monitor (paid counter per withdrawal identity, recipient balance = sum of paid amounts, Claimed query agreement incl. other bridge ids) over a memoised bounded-exhaustive DFS on copy-on-write branches (3 leaves, 4 overlapping tree variants, <=3 live outputs, propose/delete/advance/finalize) and over long random histories with re-included leaves, deletions and re-proposals.",
+   text="Exactly-once monitor (paid counter per withdrawal identity, recipient balance = sum of paid amounts, Claimed query agreement incl. other bridge ids) over a memoised bounded-exhaustive DFS on copy-on-write branches (3 leaves, 4 overlapping tree variants, <=3 live outputs, propose/delete/advance/finalize) and over long random histories with re-included leaves, deletions and re-proposals; every paid claim is re-submitted by privileged accounts (governance, roles, module accounts, escrow), under another spelling of the recipient, and from inside its own payout transfer (re-entrancy through a wrapped bank keeper).",
    note=TB, technique="runtime exactly-once monitor over bounded-exhaustive DFS + random histories"),
  "C03": dict(level="exploration", design="§3 C03",
    text="Soundness oracle: every accepted finalization is re-verified with an independent implementation against the output stored at the named index; a perturbation engine submits, for every tree size/shape/position, each single-field mutation (every bit position of roots and proof elements, arithmetic on sequence/amount, foreign bridge/output, swapped and concatenated addresses, structural proof edits) and random multi-field mixes in three oracle states, with the unperturbed claim as positive control; deep paths (1..256), stored-root byte perturbation, and ghost roots proposed only on discarded branches. The stored root is read by iteration, not through the getter the handler uses.",
@@ -24,48 +24,48 @@ CHECKS = {
    text="Step-by-step comparison with the sequential model of the sequence gate: all schedules of length 4/5 over {seq 1..4}x{two executors, stranger} without memoisation, depth 8/10 with state-digest memoisation, and long random schedules with duplicates, replays, gaps, multi-message transactions, executor rotation, refunds (also for denoms whose bank metadata pre-exists), speculative execution on discarded branches and unrelated traffic; NOOP must leave the written state byte-identical.",
    note=TB, technique="runtime sequential reference model over exhaustive and random delivery schedules"),
  "C07": dict(level="fault_enumeration", design="§3 C07",
-   text="Outcome classifier (CREDIT / REFUND / illegal) over balances, supply, sequences, events and the auth store, applied to 250+ input classes (recipient x amount x payload) fault-free and with an error and a panic injected at every recorded bank/account-keeper call (five proxy layers), plus byte-mutation and random fuzz of the hook payload and a recording gas meter for the hook-gas bound.",
+   text="Outcome classifier (CREDIT / REFUND / illegal) over balances, supply, sequences, events and the auth store, applied to 250+ input classes (recipient x amount x payload) fault-free and with an error and a panic injected at every recorded bank/account-keeper call (five proxy layers), plus byte-mutation and random fuzz of the hook payload (up to 1 MiB), a recording gas meter for the hook-gas bound on fresh and pre-consumed meters, and a stale-payload replay scenario (a failed hook must consume its signer's sequence).",
    note=TB+" Sites outside the 'failing hook or failing mint/transfer' sentence (zero-amount account creation, denom metadata, reclaim/burn) are asserted as legal-outcome-or-atomic-error-with-successful-retry; the per-site table is in the evidence.", technique="fault injection at keeper-interface proxies + outcome classifier + payload fuzz"),
  "C08": dict(level="exploration", design="§3 C08",
    text="Two-chain simulation under a seeded single-threaded scheduler (every observed state is a consistent cut); the solvency equation escrow = L2 supply + deposits in flight + unpaid withdrawals is evaluated after every step from bank balances, the two sequence queries, the Claimed query and parsed events; each run ends with a full drain (every claim exactly once, escrow == supply, holdings conserved).",
    note=TB+" Premise: faithful executor; amounts < 2^62.", technique="runtime conservation monitor over scheduled two-chain interleavings + drain"),
  "C09": dict(level="exploration", design="§3 C09",
-   text="L2 supply ledger, shared gap-free L2 sequence, write-once denom mapping and exact signer-only burn checked after every message of random L2 histories with credited/refunded/zero/conflicting-base deposits, transfers and withdrawals of bridged, native and unknown denoms below/at/above the balance.",
+   text="L2 supply ledger, shared gap-free L2 sequence, write-once denom mapping and exact signer-only burn checked after every message of random L2 histories with credited/refunded/zero/conflicting-base deposits, transfers and withdrawals of bridged, native and unknown denoms below/at/above the balance, committed and discarded replays of processed sequences naming other denoms, deposits whose mint/transfer fails or panics underneath the handler, hooks that withdraw.",
    note=TB, technique="runtime reference-model monitor over random histories"),
  "C10": dict(level="exploration", design="§3 C10",
    text="Per-bridge sequence model, event/request/balance triple comparison and token-pair derivation (independent L2 denom) checked after every step of random histories interleaving bridge creation and deposits over ids that partly do not exist yet.",
    note=TB, technique="runtime reference-model monitor over random histories"),
  "C11": dict(level="exploration", design="§3 C11",
-   text="Structural invariant of the stored output log (contiguity, strictly increasing L2 blocks, monotone L1 times, final prefix, suffix-only deletion, agreement with a reference list) read through the paginated queries after every step of random propose/delete/re-propose histories with off-by-one indices and L2 blocks.",
-   note=TB, technique="runtime structural-invariant monitor at quiescent points"),
+   text="Structural invariant of the stored output log (contiguity, strictly increasing L2 blocks, monotone L1 times, final prefix, suffix-only deletion, agreement with a reference list) read through the paginated queries after every step of random propose/delete/re-propose histories with off-by-one indices and L2 blocks; plus a bounded-exhaustive exploration (depth 5 quick, 6 thorough; state-digest memoisation) of propose x {next-1,next,next+1} x L2 block {last-1,last,last+1,last+7,2^64-1} x {fresh, byte-identical root} x signer, delete 0..next and four time steps against a complete sequential model of the log (every accept/reject decision, list and single queries, next index, last-finalized query, other bridge untouched).",
+   note=TB, technique="runtime sequential reference model over bounded-exhaustive DFS + structural-invariant monitor over random histories"),
  "C12": dict(level="exploration", design="§3 C12",
-   text="Authorization-matrix oracle: in each state reached by random role rotations every permissioned message type (8 on L1, 8 on L2) is built valid in every other respect, its proto-declared signer checked to be the candidate, and delivered on a branch for every candidate signer (authority, current and past holders, same role on another bridge, admin, strangers); success must equal the role table's verdict and every message type must be seen succeeding for a legitimate holder. Plus MsgExecuteMessages all-or-nothing cases and bridge-binding mutations.",
+   text="Authorization-matrix oracle: in each state reached by random role rotations every permissioned message type (8 on L1, 8 on L2) is built valid in every other respect, its proto-declared signer checked to be the candidate, and delivered on a branch for every candidate signer (authority, current and past holders, same role on another bridge, admin, strangers); success must equal the role table's verdict and every message type must be seen succeeding for a legitimate holder. Plus MsgExecuteMessages all-or-nothing cases (incl. batches mixing authority-signed and user-signed messages, whose user funds must not move), immediate probes after every rotation (also by plans firing at a full validator set), and bridge-binding mutations (bech32 / hex / free-text addresses, ids, chain ids, client ids) from three start states. Other transactions run on discarded branches before every probe.",
    note=TB, technique="runtime authorization-matrix oracle (role table vs probe on branched state)"),
  "C13": dict(level="exploration", design="§3 C13",
-   text="Engine/state agreement monitor: the real CometBFT ValidatorSet accumulates every batch returned by InitGenesis/EndBlocker and is compared after every block with the positive-power validators in state and the recorded last powers; index bijection, capacity, removal-by-end-of-block and per-height history are checked; memoised bounded-exhaustive DFS over add/remove/end-block/max/retention from three genesis sets plus random longer histories.",
+   text="Engine/state agreement monitor: the real CometBFT ValidatorSet accumulates every batch returned by InitGenesis/EndBlocker and is compared after every block with the positive-power validators in state and the recorded last powers; index bijection, capacity, removal-by-end-of-block and per-height history are checked; memoised bounded-exhaustive DFS over add/remove/end-block/max/retention from three genesis sets plus random longer histories; plus every genesis validator list over operators x keys x powers {-1,0,1,3} (all lists of <=2, sampled lists of 3-4, distinct operators) that the module's ValidateGenesis accepts: it must start consistent and survive a short script.",
    note=TB+" Engine oracle: cometbft v0.38.12. An engine refusal because every validator was removed ends the history without alarm. Pruning asserted only when retention was never 0.", technique="runtime differential monitor against the real consensus-engine validator set over bounded-exhaustive DFS"),
  "C14": dict(level="exploration", design="§3 C14",
-   text="Same engine monitor around plan heights: every plan class (new/known operator x new/own/foreign key) x executor lists x max validators x mid-block operation applied to every validator-set state reachable within the depth bound; engine set, state and executors read at h-1, h, h+1; malformed plans must be rejected leaving the plan table untouched. Two classes of plans are recorded as known findings with explicit (class, clause) signatures.",
+   text="Same engine monitor around plan heights: every plan class (new/known operator x new/own/foreign key) x executor lists x max validators x mid-block operation applied to every validator-set state reachable within the depth bound; engine set, state and executors read at h-1, h, h+1; executor authorisation is also probed behaviourally (a deposit finalization offered by every old and planned executor before and after the height); malformed plans must be rejected leaving the plan table untouched. Two classes of plans are recorded as known findings with explicit (class, clause) signatures.",
    note=TB+" Plan table is process memory, snapshotted/restored around scenarios.", technique="runtime differential monitor against the real consensus-engine validator set over enumerated plan classes x reachable states"),
  "C15": dict(level="exploration", design="§3 C15",
-   text="Quorum oracle computed from the harness's own knowledge of every key in the extended commits it generates (21 attack kinds x 9 power vectors around the 2/3 line, sequences with equal/older/newer timestamps, oracle flag toggles, host-set refreshes): any price or timestamp change must be backed by distinct host validators with >= 2/3 power that each supplied a decodable price in a commit-flagged entry carrying their own valid signature; timestamps strictly increase; host set only replaced by a higher height from the configured client.",
+   text="Quorum oracle computed from the harness's own knowledge of every key in the extended commits it generates (24 attack kinds incl. forged entries after the quorum point and genuine signatures harvested from an earlier commit over other extensions, x 9 power vectors around the 2/3 line, sequences with equal/older/newer timestamps, oracle flag toggles, host-set refreshes): any price or timestamp change must be backed by distinct host validators with >= 2/3 power that each supplied a decodable price in a commit-flagged entry carrying their own valid signature; timestamps strictly increase; host set only replaced by a higher height from the configured client.",
    note=TB+" Connect's codecs and ed25519 are trusted to build the adversarial commits; necessary-condition direction only.", technique="runtime quorum oracle over adversarially generated inputs"),
  "C16": dict(level="exploration", design="§3 C16",
-   text="For states sampled along random histories of both modules: ValidateGenesis(Export), JSON round trip, InitGenesis on a fresh chain, byte comparison of the re-export, engine check of the L2 import's validator updates, and a lock-step probe script of 60-150 messages and queries whose transcripts on the original and the re-imported chain must be identical.",
+   text="For states sampled along random histories of both modules: ValidateGenesis(Export), JSON round trip, InitGenesis on a fresh chain, byte comparison of the re-export, engine check of the L2 import's validator updates, and a lock-step probe script of 60-150 messages and queries whose transcripts on the original and the re-imported chain must be identical. States include exports taken in the middle of a block (after add+remove, after a removal), chains that never registered their bridge info, hooks disabled (hook_max_gas 0), several bridges with different log lengths.",
    note=TB+" Host validator snapshot and per-height history are excluded as the statement says.", technique="runtime differential execution (original vs re-imported chain) + round-trip equality"),
  "C17": dict(level="exploration", design="§3 C17", thorough_extra=" --race",
-   text="Differential monitor: every exported commitment/identifier function is compared, on lattice and random inputs, with an independent from-scratch Keccak/ADR-028 implementation that is itself pinned to python-hashlib vectors; purity is observed with canary arenas around every argument under four memory layouts of the proof list, at function level and through the real MsgFinalizeTokenWithdrawal handler. Held-on-observed-executions, not a proof.",
+   text="Differential monitor: every exported commitment/identifier function is compared, on lattice and random inputs, with an independent from-scratch Keccak/ADR-028 implementation that is itself pinned to python-hashlib vectors; purity is observed with canary arenas around every argument under four memory layouts of the proof list, at function level and through the real MsgFinalizeTokenWithdrawal handler (receivers in lower- and upper-case bech32), and with 16 goroutines calling the functions concurrently on their own inputs. Held-on-observed-executions, not a proof.",
    note="Trusts python3 hashlib (vectors generated once, committed), Go's memory model for the canary arenas; hash collisions not searched.",
    technique="differential runtime monitor + memory canaries (race/checkptr build in thorough)",
    ),
  "C18": dict(level="exploration", design="§3 C18", thorough_extra=" --race",
-   text="N independent replicas (4 quick, 16 thorough; half sequential, half concurrent goroutines, thorough under the Go race detector) execute the same seeded histories (two-chain bridge traffic, validator bursts with >=3 removals per block and change plans, 7-validator x 6-pair oracle updates, 4-bridge world with export/re-import); complete transcripts (responses, full error strings, gas, events and validator updates in order, store digest per block, exports) are compared line by line.",
+   text="N in-process replicas (4 quick, 16 thorough; half sequential, half concurrent goroutines, thorough under the Go race detector) plus one replica in a child process with another time zone and GOMAXPROCS execute the same seeded histories (two-chain bridge traffic, validator bursts with >=3 removals per block and change plans, 7-validator x 6-pair oracle updates, 4-bridge world with export/re-import, permissioned-channel histories, oracle updates stamped around the wall clock); replicas differ in process history only: odd ones run every transaction and scripts of other transactions on discarded branches first, every second pair restarts (fresh keepers over the same stores) every few transactions; complete transcripts (responses, full error strings, gas, events and validator updates in order, store digest per block, exports) are compared line by line.",
    note=TB+" Each replica is an independent draw of Go's map iteration orders and runs at a different wall-clock time; detection of an unsorted 3-element iteration has probability 1-(1/6)^(N-1) per order-sensitive step.", technique="runtime replica comparison + Go race detector"),
  "C19": dict(level="exploration", design="§3 C19",
-   text="Reference model of the grant rule compared with the permission table after every operation of random create / update-metadata / update-challenger histories through the real ophost message path and the real hook.BridgeHook, over a hostile metadata corpus and changing channel states.",
+   text="Reference model of the grant rule compared with the permission table after every operation of random create / update-metadata / update-challenger histories through the real ophost message path and the real hook.BridgeHook, over a hostile metadata corpus and changing channel states; the reference parser uses its own declaration of the documented structure; both directions of the grant rule are asserted (refused when a condition fails; accepted when every listed channel is clearly grantable).",
    note=TB+" Channel and permission keepers are in-store stand-ins for the IBC modules.", technique="runtime reference-model monitor over random histories and a hostile input corpus"),
  "C20": dict(level="exploration", design="§3 C20",
-   text="Arithmetic oracle in exact rationals for the fee floor (two-sided for gas>0), direct predicates for the system and free lane matchers on generated message shapes and whitelist combinations, and the sequence model for the redundant-relay filter, each across CheckTx/ReCheckTx/DeliverTx/simulate modes.",
+   text="Arithmetic oracle in exact rationals for the fee floor (two-sided for gas>0), direct predicates for the system and free lane matchers on generated message shapes and whitelist combinations, and the sequence model for the redundant-relay filter, each across CheckTx/ReCheckTx/DeliverTx/simulate modes; handler objects (ante decorators, lane matchers) live for the whole run while params, whitelists and price vectors change under them.",
    note=TB+" For gas = 0 only the stated 'only if' direction is asserted.", technique="runtime differential oracle (exact-rational arithmetic, shape predicates) over generated inputs"),
 }
 def main():
